@@ -5,6 +5,7 @@ package main
 // function+site, so the order of sites does not matter).
 
 import (
+	"os"
 	"fmt"
 	"go/constant"
 	"go/types"
@@ -511,4 +512,85 @@ func ruleOrderingAudited(p *Prog, r *Report, rule, prop string, pkgs map[string]
 		}
 	}
 	r.floor(rule, "ordering functions", n, floor)
+}
+
+// emitSites: the call sites of the emitting helpers in package pkg.
+func emitSites(p *Prog, pkg string, emitters map[string]bool) []guardSite {
+	var out []guardSite
+	for _, fn := range allModFuncs(p) {
+		if pkgOfFunc(fn) != pkg || fn.Synthetic != "" {
+			continue
+		}
+		for _, gs := range guardSitesOf(p, fn) {
+			if strings.HasPrefix(gs.Name, "call:") && emitters[gs.Name[len("call:"):]] {
+				out = append(out, gs)
+			}
+		}
+	}
+	return out
+}
+
+// ruleEmitDiscipline: every call of an emitting helper lies at an audited function+site.
+func ruleEmitDiscipline(p *Prog, r *Report, rule, prop, pkg string, emitters []string, floor int) {
+	em := map[string]bool{}
+	for _, e := range emitters {
+		em[e] = true
+	}
+	have := map[string]bool{}
+	for _, row := range readTable("guards.tsv", 5) {
+		have[row[0]+"|"+row[1]] = true
+	}
+	seen := map[string]bool{}
+	n := 0
+	for _, gs := range emitSites(p, pkg, em) {
+		n++
+		k := fnDisplay(gs.Fn) + "|" + gs.Name
+		if seen[k] {
+			continue
+		}
+		seen[k] = true
+		r.add(rule, "emit-audited|"+k, p.ipos(gs.In), "the conditions under which "+fnDisplay(gs.Fn)+" emits through "+gs.Name[len("call:"):]+" are audited (rows in tables/guards.tsv)", have[k],
+			"a command is emitted at a place whose conditions were never audited")
+	}
+	r.floor(rule, "emitting calls of package "+pkg, n, floor)
+}
+
+func init() {
+	dumpers["emitrows"] = func(p *Prog, m *Model) {
+		em := map[string]bool{}
+		for _, e := range strings.Split(os.Getenv("EMIT"), ",") {
+			em[e] = true
+		}
+		have := map[string]bool{}
+		for _, row := range readTable("guards.tsv", 5) {
+			have[row[0]+"|"+row[1]] = true
+		}
+		for _, gs := range emitSites(p, os.Getenv("PKG"), em) {
+			if !have[fnDisplay(gs.Fn)+"|"+gs.Name] {
+				fmt.Printf("%s\t%s\t%s\tPROPS\tREASON\t# %s\n", fnDisplay(gs.Fn), gs.Name, gs.Sig, p.ipos(gs.In))
+			}
+		}
+	}
+}
+
+func init() {
+	dumpers["appendrows"] = func(p *Prog, m *Model) {
+		have := map[string]bool{}
+		for _, row := range readTable("guards.tsv", 5) {
+			have[row[0]+"|"+row[1]] = true
+		}
+		for _, fn := range allModFuncs(p) {
+			if pkgOfFunc(fn) != os.Getenv("PKG") || fn.Synthetic != "" {
+				continue
+			}
+			if f := os.Getenv("FILE"); f != "" && !strings.HasSuffix(p.Fset.Position(fn.Pos()).Filename, f) {
+				continue
+			}
+			for _, gs := range guardSitesOf(p, fn) {
+				if gs.Name == "append" && !have[fnDisplay(fn)+"|append"] {
+					fmt.Printf("%s\t%s\t%s\tPROPS\tREASON\t# %s\n", fnDisplay(fn), gs.Name, gs.Sig, p.ipos(gs.In))
+				}
+			}
+		}
+	}
 }
